@@ -604,6 +604,7 @@ class Normaliser:
             for q, f, cls in list(func_quals(tree)):
                 known = set(base.get(q, ())) if q in base else None
                 self._forward(path, q, f, known)
+        self._drop_unused()
         for m in self.modules.values():
             ast.fix_missing_locations(m.tree)
         return self.log
@@ -611,6 +612,30 @@ class Normaliser:
     def _collect(self):
         self._effects = None
         self._cur = (None, {}, 'self')
+        # named tuple classes of the package: name -> field list
+        self.ntypes = {}
+        self.ret_ntype = {}        # function name -> named tuple class named in its return annotation
+        for path, mod in self.modules.items():
+            for node in mod.tree.body:
+                if isinstance(node, ast.Assign) and len(node.targets) == 1 and isinstance(node.targets[0], ast.Name) and isinstance(node.value, ast.Call):
+                    fn = node.value.func
+                    nm = fn.id if isinstance(fn, ast.Name) else fn.attr if isinstance(fn, ast.Attribute) else ''
+                    if nm == 'namedtuple' and len(node.value.args) >= 2:
+                        flds = node.value.args[1]
+                        names = None
+                        if isinstance(flds, (ast.List, ast.Tuple)) and all(isinstance(e, ast.Constant) and isinstance(e.value, str) for e in flds.elts):
+                            names = [e.value for e in flds.elts]
+                        elif isinstance(flds, ast.Constant) and isinstance(flds.value, str):
+                            names = flds.value.replace(',', ' ').split()
+                        if names:
+                            self.ntypes[node.targets[0].id] = names
+                elif isinstance(node, ast.ClassDef) and any((isinstance(b, ast.Name) and b.id == 'NamedTuple') or (isinstance(b, ast.Attribute) and b.attr == 'NamedTuple') for b in node.bases):
+                    self.ntypes[node.name] = [st.target.id for st in node.body if isinstance(st, ast.AnnAssign) and isinstance(st.target, ast.Name)]
+            for q, f, cls in func_quals(mod.tree):
+                r = f.returns
+                rn = r.id if isinstance(r, ast.Name) else r.attr if isinstance(r, ast.Attribute) else None
+                if rn:
+                    self.ret_ntype.setdefault(f.name, set()).add(rn)
         defs: dict[str, list] = {}
         for path, mod in self.modules.items():
             for q, f, cls in func_quals(mod.tree):
@@ -637,7 +662,17 @@ class Normaliser:
         a = f.args
         if a.vararg or a.kwarg:
             return False
+        simple_gen = False
+        b_ = [x for x in f.body if not (isinstance(x, ast.Expr) and isinstance(x.value, ast.Constant))]
+        if len(b_) == 1 and isinstance(b_[0], ast.For) and not b_[0].orelse and len(b_[0].body) == 1 \
+                and sum(1 for n in ast.walk(f) if isinstance(n, (ast.Yield, ast.YieldFrom))) == 1:
+            inner = b_[0].body[0]
+            while isinstance(inner, ast.If) and not inner.orelse and len(inner.body) == 1:
+                inner = inner.body[0]
+            simple_gen = isinstance(inner, ast.Expr) and isinstance(inner.value, ast.Yield)
         for n in ast.walk(f):
+            if isinstance(n, (ast.Yield, ast.YieldFrom)) and simple_gen:
+                continue
             if isinstance(n, (ast.Yield, ast.YieldFrom, ast.Await, ast.Global, ast.Nonlocal)):
                 return False
             if isinstance(n, ast.Call):
@@ -706,9 +741,25 @@ class Normaliser:
                 known = set(bm.get(node.name, ())) if (bm is not None and node.name in bm) else (set() if bm is not None else None)
                 if known is None:
                     continue
+                modnames = set()
+                for top in mod.tree.body:
+                    if isinstance(top, (ast.FunctionDef, ast.ClassDef)):
+                        modnames.add(top.name)
+                    elif isinstance(top, (ast.Import, ast.ImportFrom)):
+                        modnames |= {(al.asname or al.name).split('.')[0] for al in top.names}
+                classnames = {n.id for st in node.body for t in (st.targets if isinstance(st, ast.Assign) else []) for n in ast.walk(t) if isinstance(n, ast.Name)} \
+                    | {m.name for m in node.body if isinstance(m, ast.FunctionDef)}
+
+                def is_table(e, depth=0):
+                    # nested tuples/lists of constants and module-level names (classes, functions): the same objects in every method
+                    if isinstance(e, (ast.Tuple, ast.List)):
+                        return bool(e.elts) and depth < 3 and all(is_table(x, depth + 1) for x in e.elts)
+                    if isinstance(e, ast.Constant):
+                        return True
+                    return isinstance(e, ast.Name) and e.id in modnames and e.id not in classnames
                 for st in node.body:
                     if isinstance(st, ast.Assign) and len(st.targets) == 1 and isinstance(st.targets[0], ast.Name) \
-                            and st.targets[0].id not in known and is_const_expr(st.value):
+                            and st.targets[0].id not in known and (is_const_expr(st.value) or (isinstance(st.value, (ast.Tuple, ast.List)) and is_table(st.value))):
                         cands.setdefault(st.targets[0].id, []).append((path, node.name, st.value))
         cands = {k: v[0] for k, v in cands.items() if len(v) == 1}
         if not cands:
@@ -731,6 +782,10 @@ class Normaliser:
         for path, mod in self.modules.items():
             for q, f, cls in func_quals(mod.tree):
                 if any(isinstance(n, ast.Attribute) and n.attr in cands for n in ast.walk(f)):
+                    free = {n.id for c_ in cands.values() for n in ast.walk(c_[2]) if isinstance(n, ast.Name)}
+                    if free & local_names(f) or any(c_[0] != path for k_, c_ in cands.items()
+                                                    if any(isinstance(n, ast.Attribute) and n.attr == k_ for n in ast.walk(f)) and free):
+                        continue        # a local of the same name, or a table of another module whose names are not visible here
                     T().visit(f)
         self.log.append(f'N1 propagated new class-level constants {sorted(cands)}')
 
@@ -916,6 +971,15 @@ class Normaliser:
         body = list(func.body)
         if body and isinstance(body[0], ast.Expr) and isinstance(body[0].value, ast.Constant) and isinstance(body[0].value.value, str):
             body = body[1:]
+        if len(body) == 1 and isinstance(body[0], ast.For) and not body[0].orelse and len(body[0].body) == 1:
+            # def g(..): for T in IT: [if C:] yield E      ==  return (E for T in IT [if C])
+            inner, conds = body[0].body[0], []
+            while isinstance(inner, ast.If) and not inner.orelse and len(inner.body) == 1:
+                conds.append(inner.test)
+                inner = inner.body[0]
+            if isinstance(inner, ast.Expr) and isinstance(inner.value, ast.Yield) and inner.value.value is not None \
+                    and sum(1 for n in ast.walk(func) if isinstance(n, (ast.Yield, ast.YieldFrom))) == 1:
+                return ast.copy_location(ast.GeneratorExp(elt=inner.value.value, generators=[ast.comprehension(target=body[0].target, iter=body[0].iter, ifs=conds, is_async=0)]), body[0])
         if not body or not isinstance(body[-1], ast.Return) or body[-1].value is None:
             return None
         if len(body) == 1:
@@ -1232,6 +1296,12 @@ class Normaliser:
         for _round in range(6):
             n0 = len(self.log)
             self._fold_new_locals(path, qual, func, known | params)
+            if any(l.startswith('N7') for l in self.log[n0:]):
+                self._fold_attr_strings(func)
+                # unrolling a dispatch table exposes calls to new helpers (bound methods taken from the table): inline them now
+                func._kv_norm = False
+                self.inprogress.discard((path, qual))
+                self._function(path, qual, func, cls)
             for _ in range(80):
                 if not (self._forward_once(path, qual, func, known) or self._coalesce_once(path, qual, func, known | params)
                         or self._coalesce_copy_in(path, qual, func, known | params) or self._alias_to_field(path, qual, func, known | params)):
@@ -1573,6 +1643,281 @@ class Normaliser:
         func.body = unroll(func.body)
         if len(self.log) > n_before:
             self._fold_attr_strings(func)
+        self._loops_and_tuples(path, qual, func, known)
+
+    # ---------------------------------------------------------------- N7 tables, counters, named tuples
+    @staticmethod
+    def _table_elements(it, bound_in_body):
+        """element expressions of a literal table: (e1, e2, ..) / [..] / zip(lit, lit, ..); every leaf is atomic (constant,
+        name, attribute path, slice(..) of constants) and not rebound in the loop body; None otherwise"""
+        def atomic(e):
+            if isinstance(e, ast.Constant):
+                return True
+            if isinstance(e, ast.UnaryOp) and isinstance(e.operand, ast.Constant):
+                return True
+            if isinstance(e, ast.Name):
+                return e.id not in bound_in_body
+            if isinstance(e, ast.Attribute):
+                return _attr_chain_only(e) and root_and_attrs(e)[0] not in bound_in_body
+            if isinstance(e, ast.Call) and isinstance(e.func, ast.Name) and e.func.id == 'slice' and not e.keywords:
+                return all(isinstance(a, ast.Constant) or (isinstance(a, ast.UnaryOp) and isinstance(a.operand, ast.Constant)) for a in e.args)
+            if isinstance(e, (ast.Tuple, ast.List)):
+                return all(atomic(x) for x in e.elts)
+            # a pure expression over names the body neither rebinds nor writes into evaluates to the same value in every row
+            if is_pure(e) and not any(isinstance(n, (ast.Call,)) and not _is_pure_call(n) for n in ast.walk(e)):
+                names = {n.id for n in ast.walk(e) if isinstance(n, ast.Name)}
+                return not (names & bound_in_body)
+            return False
+        if isinstance(it, (ast.Tuple, ast.List)) and it.elts and all(atomic(e) for e in it.elts) and not any(isinstance(e, ast.Starred) for e in it.elts):
+            return list(it.elts)
+        if isinstance(it, ast.Call) and isinstance(it.func, ast.Name) and it.func.id == 'zip' and it.args and not it.keywords:
+            cols = []
+            for a in it.args:
+                if not (isinstance(a, (ast.Tuple, ast.List)) and a.elts and all(atomic(e) for e in a.elts)):
+                    return None
+                cols.append(list(a.elts))
+            n = min(len(c) for c in cols)
+            return [ast.Tuple(elts=[c[i] for c in cols], ctx=ast.Load()) for i in range(n)]
+        return None
+
+    @staticmethod
+    def _bind_target(target, elem):
+        """{name: expression} for unpacking elem into target; None if the shapes do not match"""
+        if isinstance(target, ast.Name):
+            return {target.id: elem}
+        if isinstance(target, (ast.Tuple, ast.List)) and isinstance(elem, (ast.Tuple, ast.List)) and len(target.elts) == len(elem.elts):
+            out = {}
+            for t, e in zip(target.elts, elem.elts):
+                b = Normaliser._bind_target(t, e)
+                if b is None:
+                    return None
+                out.update(b)
+            return out
+        return None
+
+    def _loops_and_tuples(self, path, qual, func, known):
+        norm = self
+
+        def tnames(t):
+            return {n.id for n in ast.walk(t) if isinstance(n, ast.Name)}
+
+        def rec(stmts):
+            out = []
+            for i, st in enumerate(stmts):
+                for name in ('body', 'orelse', 'finalbody'):
+                    b = getattr(st, name, None)
+                    if isinstance(b, list) and b and isinstance(b[0], ast.stmt) and not isinstance(st, (ast.FunctionDef, ast.ClassDef)):
+                        setattr(st, name, rec(b))
+                later = {n.id for s2 in stmts[i + 1:] for n in ast.walk(s2) if isinstance(n, ast.Name)}
+                # (1) for T in <literal table>: ...   with new target names
+                if isinstance(st, ast.For) and tnames(st.target) and not (tnames(st.target) & known) and not (tnames(st.target) & later):
+                    body_nodes = [n for b_ in st.body for n in ast.walk(b_)]
+                    bound = {n.id for n in body_nodes if isinstance(n, ast.Name) and isinstance(n.ctx, (ast.Store, ast.Del))}
+                    for n in body_nodes:            # names written into through a subscript / attribute / augmented assignment count as changed
+                        tg = n.target if isinstance(n, ast.AugAssign) else n if (isinstance(n, (ast.Subscript, ast.Attribute)) and isinstance(n.ctx, (ast.Store, ast.Del))) else None
+                        ra = root_and_attrs(tg) if tg is not None else None
+                        if ra and ra[0] not in ('self',) and ra[0] not in tnames(st.target):
+                            bound.add(ra[0])
+                    elems = norm._table_elements(st.iter, bound | tnames(st.target))
+                    if elems is not None and len(elems) <= 16 and not (bound & tnames(st.target)) \
+                            and not any(isinstance(n, (ast.Lambda, ast.FunctionDef, ast.Continue)) for n in body_nodes):
+                        binds = [norm._bind_target(st.target, e) for e in elems]
+                        breaks = [n for n in body_nodes if isinstance(n, ast.Break)]
+                        if all(b is not None for b in binds):
+                            if not breaks and not st.orelse:
+                                for b in binds:
+                                    for b_ in st.body:
+                                        out.append(_Rename({}, b).visit(copy.deepcopy(b_)))
+                                out[:] = _canon_polarity(_prune_constant_tests(out))
+                                norm.log.append(f'N7 {path}::{qual}: loop over a literal table of {len(elems)} rows unrolled')
+                                continue
+                            # first-match dispatch: body is `if C: ...; break` -> if / elif chain (+ else from for-else)
+                            if len(st.body) == 1 and isinstance(st.body[0], ast.If) and not st.body[0].orelse and len(breaks) == 1 \
+                                    and st.body[0].body and isinstance(st.body[0].body[-1], ast.Break):
+                                chain = list(st.orelse)
+                                for b in reversed(binds):
+                                    tmpl = copy.deepcopy(st.body[0])
+                                    tmpl.body = tmpl.body[:-1] or [ast.copy_location(ast.Pass(), st)]
+                                    node = _Rename({}, b).visit(tmpl)
+                                    node.orelse = chain
+                                    chain = [node]
+                                out.extend(_canon_polarity(_prune_constant_tests(chain)))
+                                norm.log.append(f'N7 {path}::{qual}: first-match loop over a literal table of {len(elems)} rows rewritten as an if/elif chain')
+                                continue
+                # (2) for V in itertools.count(): if C: break; BODY   ->   V = 0; while not C: BODY; V += 1
+                if isinstance(st, ast.For) and isinstance(st.target, ast.Name) and isinstance(st.iter, ast.Call) and isinstance(st.iter.func, ast.Attribute) \
+                        and st.iter.func.attr == 'count' and isinstance(st.iter.func.value, ast.Name) and st.iter.func.value.id == 'itertools' \
+                        and len(st.iter.args) <= 1 and not st.iter.keywords and not st.orelse and st.body \
+                        and isinstance(st.body[0], ast.If) and not st.body[0].orelse and len(st.body[0].body) == 1 and isinstance(st.body[0].body[0], ast.Break):
+                    rest = st.body[1:]
+                    rest_nodes = [n for b_ in rest for n in ast.walk(b_)]
+                    V = st.target.id
+                    if not any(isinstance(n, (ast.Break, ast.Continue)) for n in rest_nodes) \
+                            and not any(isinstance(n, ast.Name) and n.id == V and isinstance(n.ctx, (ast.Store, ast.Del)) for n in rest_nodes):
+                        start = st.iter.args[0] if st.iter.args else ast.Constant(value=0)
+                        init = ast.copy_location(ast.Assign(targets=[ast.Name(id=V, ctx=ast.Store())], value=start, lineno=st.lineno), st)
+                        inc = ast.copy_location(ast.AugAssign(target=ast.Name(id=V, ctx=ast.Store()), op=ast.Add(), value=ast.Constant(value=1)), st)
+                        test = _negate(st.body[0].test)
+                        # not (not (a) or b)  ->  a and not b
+                        if isinstance(test, ast.UnaryOp) and isinstance(test.op, ast.Not) and isinstance(test.operand, ast.BoolOp) and isinstance(test.operand.op, ast.Or):
+                            test = ast.copy_location(ast.BoolOp(op=ast.And(), values=[_negate(v) for v in test.operand.values]), test)
+                        wl = ast.copy_location(ast.While(test=test, body=rest + [inc], orelse=[]), st)
+                        out.extend([init, wl])
+                        norm.log.append(f'N7 {path}::{qual}: for {V} in itertools.count() with a leading break test rewritten as a while loop with a counter')
+                        continue
+                out.append(st)
+            return out
+        func.body = rec(func.body)
+
+        # [f(a) for a in (b for b in IT if C(b))]  ->  [f(a) for a in IT if C(a)]
+        class G(ast.NodeTransformer):
+            def _flat(self, node):
+                for gen in node.generators:
+                    it = gen.iter
+                    if isinstance(it, (ast.GeneratorExp, ast.ListComp)) and len(it.generators) == 1 and isinstance(it.generators[0].target, ast.Name) \
+                            and isinstance(it.elt, ast.Name) and it.elt.id == it.generators[0].target.id and isinstance(gen.target, ast.Name):
+                        inner = it.generators[0]
+                        ren = _Rename({inner.target.id: gen.target.id}, {})
+                        gen.iter = inner.iter
+                        gen.ifs = [ren.visit(copy.deepcopy(c)) for c in inner.ifs] + gen.ifs
+                        norm.log.append(f'N7 {path}::{qual}: comprehension over a generator expression flattened')
+                return node
+
+            def visit_ListComp(self, node):
+                self.generic_visit(node)
+                return self._flat(node)
+
+            def visit_GeneratorExp(self, node):
+                self.generic_visit(node)
+                return self._flat(node)
+        G().visit(func)
+
+        # slice(a, b) used as an index  ->  a:b
+        class S(ast.NodeTransformer):
+            def visit_Subscript(self, node):
+                self.generic_visit(node)
+                sl = node.slice
+                if isinstance(sl, ast.Call) and isinstance(sl.func, ast.Name) and sl.func.id == 'slice' and not sl.keywords and 1 <= len(sl.args) <= 3:
+                    def part(a):
+                        return None if (isinstance(a, ast.Constant) and a.value is None) else a
+                    a = list(sl.args)
+                    if len(a) == 1:
+                        lo, hi, stp = None, part(a[0]), None
+                    else:
+                        lo, hi, stp = part(a[0]), part(a[1]), (part(a[2]) if len(a) == 3 else None)
+                    node.slice = ast.copy_location(ast.Slice(lower=lo, upper=hi, step=stp), sl)
+                    norm.log.append(f'N7 {path}::{qual}: slice(..) index written as a slice')
+                return node
+        S().visit(func)
+
+        # named tuples: v = NT(a, b); ...v.f...   ->   the field expressions;   a, b = NT(x, y) / a, b = <value of type NT>
+        if not self.ntypes:
+            return
+        ldefs = {}
+        counts = {}
+        for n in ast.walk(func):
+            if isinstance(n, ast.Name) and isinstance(n.ctx, ast.Store):
+                counts[n.id] = counts.get(n.id, 0) + 1
+        for n in ast.walk(func):
+            if isinstance(n, ast.Assign) and len(n.targets) == 1 and isinstance(n.targets[0], ast.Name) and counts.get(n.targets[0].id) == 1:
+                ldefs[n.targets[0].id] = n
+
+        def nt_of(expr):
+            """(class name, constructor call | None) when the expression is a named tuple of a known class"""
+            if isinstance(expr, ast.Call):
+                fn = expr.func
+                nm = fn.id if isinstance(fn, ast.Name) else fn.attr if isinstance(fn, ast.Attribute) else None
+                if nm in self.ntypes and not any(isinstance(a, ast.Starred) for a in expr.args) and not any(k.arg is None for k in expr.keywords):
+                    return nm, expr
+                rts = self.ret_ntype.get(nm, set()) & set(self.ntypes)
+                if len(rts) == 1 and len(self.ret_ntype.get(nm, set())) == 1:
+                    return next(iter(rts)), None
+            if isinstance(expr, ast.Name) and expr.id in ldefs:
+                return nt_of(ldefs[expr.id].value)
+            return None
+
+        def ctor_fields(cls, call):
+            flds = self.ntypes[cls]
+            vals = dict(zip(flds, call.args))
+            for k in call.keywords:
+                vals[k.arg] = k.value
+            return [vals.get(f) for f in flds] if all(f in vals for f in flds) else None
+
+        def rec2(stmts):
+            out = []
+            for st in stmts:
+                for name in ('body', 'orelse', 'finalbody'):
+                    b = getattr(st, name, None)
+                    if isinstance(b, list) and b and isinstance(b[0], ast.stmt) and not isinstance(st, (ast.FunctionDef, ast.ClassDef)):
+                        setattr(st, name, rec2(b))
+                if isinstance(st, ast.Assign) and len(st.targets) == 1 and isinstance(st.targets[0], ast.Tuple) \
+                        and all(isinstance(e, ast.Name) and e.id not in known for e in st.targets[0].elts):
+                    info = nt_of(st.value)
+                    if info and len(self.ntypes[info[0]]) == len(st.targets[0].elts):
+                        cls, call = info
+                        if call is not None and call is st.value:
+                            vals = ctor_fields(cls, call)
+                            if vals:
+                                st.value = ast.copy_location(ast.Tuple(elts=vals, ctx=ast.Load()), st.value)
+                                norm.log.append(f'N7 {path}::{qual}: unpacking of a {cls}(..) constructor rewritten as a tuple assignment')
+                        elif isinstance(st.value, ast.Name):
+                            base = st.value
+                            st.value = ast.copy_location(ast.Tuple(elts=[ast.copy_location(ast.Attribute(value=ast.Name(id=base.id, ctx=ast.Load()), attr=f, ctx=ast.Load()), base)
+                                                                         for f in self.ntypes[cls]], ctx=ast.Load()), st.value)
+                            norm.log.append(f'N7 {path}::{qual}: unpacking of a {cls} value rewritten as field reads')
+                out.append(st)
+            return out
+        func.body = rec2(func.body)
+        # v = NT(..) used only through v.field / v[k]
+        for v, asg in list(ldefs.items()):
+            if v in known or not isinstance(asg.value, ast.Call):
+                continue
+            info = nt_of(asg.value)
+            if not info or info[1] is not asg.value:
+                continue
+            cls, call = info
+            vals = ctor_fields(cls, call)
+            if not vals:
+                continue
+            uses = [n for n in ast.walk(func) if isinstance(n, ast.Name) and n.id == v and isinstance(n.ctx, ast.Load)]
+            parents = {}
+            for n in ast.walk(func):
+                for c in ast.iter_child_nodes(n):
+                    parents[id(c)] = n
+            ok = True
+            for u in uses:
+                par = parents.get(id(u))
+                if isinstance(par, ast.Attribute) and par.value is u and par.attr in self.ntypes[cls] and isinstance(par.ctx, ast.Load):
+                    continue
+                if isinstance(par, ast.Subscript) and par.value is u and isinstance(par.slice, ast.Constant) and isinstance(par.slice.value, int) \
+                        and isinstance(par.ctx, ast.Load) and -len(vals) <= par.slice.value < len(vals):
+                    continue
+                ok = False
+            if not ok or not uses:
+                continue
+            flds = self.ntypes[cls]
+            temps = {f: f'{v}__{f}' for f in flds}
+            new_assigns = [ast.copy_location(ast.Assign(targets=[ast.Name(id=temps[f], ctx=ast.Store())], value=val, lineno=asg.lineno), asg) for f, val in zip(flds, vals)]
+
+            class P(ast.NodeTransformer):
+                def visit_Attribute(self, node):
+                    self.generic_visit(node)
+                    if isinstance(node.value, ast.Name) and node.value.id == v and node.attr in temps and isinstance(node.ctx, ast.Load):
+                        return ast.copy_location(ast.Name(id=temps[node.attr], ctx=ast.Load()), node)
+                    return node
+
+                def visit_Subscript(self, node):
+                    self.generic_visit(node)
+                    if isinstance(node.value, ast.Name) and node.value.id == v and isinstance(node.slice, ast.Constant) and isinstance(node.slice.value, int):
+                        return ast.copy_location(ast.Name(id=temps[flds[node.slice.value]], ctx=ast.Load()), node)
+                    return node
+            P().visit(func)
+            for blk in self._blocks(func):
+                if asg in blk:
+                    i = blk.index(asg)
+                    blk[i:i + 1] = new_assigns
+                    break
+            norm.log.append(f'N7 {path}::{qual}: fields of the local {cls} {v} replaced by the expressions it was built from')
 
     def _forward_once(self, path, qual, func, known):
         params = {x.arg for x in func.args.posonlyargs + func.args.args + func.args.kwonlyargs}
